@@ -2774,16 +2774,19 @@ class Parameters:
         param_values = self_.values()
         params = {name: param_values[name] for name in param_names}
         self_._TRIGGER = True
-        self_.update(dict(params, **triggers))
-        self_._TRIGGER = False
-        # Inside an open batch the triggered events are still queued: the
-        # events parked above were raised before them and each watcher must
-        # be queued only once.
-        self_._events = events + self_._events
-        self_._state_watchers = watchers + [
-            w for w in self_._state_watchers
-            if not any(w is queued for queued in watchers)
-        ]
+        try:
+            self_.update(dict(params, **triggers))
+        finally:
+            # (also when a watcher raises)
+            self_._TRIGGER = False
+            # Inside an open batch the triggered events are still queued: the
+            # events parked above were raised before them and each watcher must
+            # be queued only once.
+            self_._events = events + self_._events
+            self_._state_watchers = watchers + [
+                w for w in self_._state_watchers
+                if not any(w is queued for queued in watchers)
+            ]
 
     def _update_event_type(self_, watcher, event, triggered):
         """Return an updated Event object with the type field set appropriately."""
